@@ -3,6 +3,7 @@ Sidecar contracts for tdda/referencetest/checkfiles.py (C15: faithful
 artefacts; C04 helpers).
 """
 import z3
+from collections import OrderedDict
 
 from pyvc.contracts import contract, Contract, LoopSpec, REGISTRY
 from pyvc.sym import (T, TD, SObj, SBool, SInt, SStr, SList, Sym, Unsupported, StrS)
@@ -316,3 +317,100 @@ contract(CF + 'FilesComparison.can_ignore', props=['C04'],
          ensures=[('reference-line-substring-or-pattern-equivalence',
                    'result == (any_substring_in(ignore_substrings, expected_line) '
                    'or patterns_equiv(actual_line, expected_line))')])
+
+
+# ---------------------------------------------------------------------------
+# check_for_permutation_failures (C04): the differing lines count as no failure
+# exactly when the actual lines are a rearrangement (same multiset) of the
+# expected ones.  Lists of 0..3 failure cases, contents symbolic.
+# ---------------------------------------------------------------------------
+import itertools as _it
+
+
+def _failure_cases(it, name):
+    k = it.path.choose([True] * 4)
+    return [(i, it.fresh_str('actual%d' % i), it.fresh_str('expected%d' % i)) for i in range(k)]
+
+
+@specfn
+def same_multiset(it, cases):
+    from pyvc.ops import strz
+    n = len(cases)
+    a = [strz(it, c[1]) for c in cases]
+    e = [strz(it, c[2]) for c in cases]
+    alts = []
+    for perm in _it.permutations(range(n)):
+        alts.append(z3.And(*[a[i] == e[perm[i]] for i in range(n)]) if n else z3.BoolVal(True))
+    return SBool(z3.Or(*alts))
+
+
+def _perm_view(it):
+    o = files_view(it)
+    o.attrs['verbose'] = False
+    return o
+
+
+contract(CF + 'FilesComparison.check_for_permutation_failures', props=['C04'],
+         params=dict(failure_cases=T.custom(_failure_cases)), self_view=_perm_view,
+         spec_env=dict(ENV, same_multiset=same_multiset),
+         ensures=[('no-failure-iff-rearrangement', '(result == 0) == same_multiset(failure_cases)'),
+                  ('otherwise-every-case-counts', 'result == 0 or result == len(failure_cases)')])
+
+
+# ---------------------------------------------------------------------------
+# wrong_number (C04): texts whose line counts differ after removal never pass.
+# The lists are symbolic (any length), the removal sets and line maps abstract.
+# ---------------------------------------------------------------------------
+
+def _wn_entry(it, senv):
+    def intset(name):
+        member = z3.Function('in_' + name, z3.IntSort(), z3.BoolSort())
+        return SObj('set', {'__contains__': (lambda x: SBool(member(x.z if isinstance(x, SInt) else z3.IntVal(int(x))))),
+                            '__open__': False}, label=name)
+
+    def sink(name):
+        o = SObj('set', {'__open__': False}, label=name)
+        o.methods['add'] = Builtin(lambda it2, self, x: None, 'set.add')
+        return o
+
+    def linemap(name):
+        f = z3.Function('map_' + name, z3.IntSort(), z3.IntSort())
+        o = SObj('dict', {'__open__': False}, label=name)
+        o.methods['__getitem__'] = Builtin(lambda it2, self, k: SInt(f(k.z if isinstance(k, SInt) else z3.IntVal(int(k)))),
+                                           'dict.__getitem__')
+        return o
+    senv['actual_removals'], senv['expected_removals'] = intset('actual_removals'), intset('expected_removals')
+    senv['actual_ignored'], senv['expected_ignored'] = sink('actual_ignored'), sink('expected_ignored')
+    senv['actual_map'], senv['expected_map'] = linemap('actual_map'), linemap('expected_map')
+    norm = z3.Function('normalized', StrS, StrS)
+    from pyvc.ops import strz
+    senv['normalize'] = Builtin(lambda it2, s: SStr(norm(strz(it2, s))), 'normalize')
+
+
+class _WrongNumber(Contract):
+    def verify(self, registry=None, quick=False):
+        reg = dict(REGISTRY if registry is None else registry)
+        reg[CF + 'FilesComparison.compile_patterns'] = Contract(
+            CF + 'FilesComparison.compile_patterns', params=dict(ignore_patterns=None),
+            effects=lambda it, env: it.fresh_opaque('compiled_patterns'), result=T.none, assumed=True,
+            name='compile_patterns', spec_env=ENV)
+        return Contract.verify(self, reg, quick)
+
+
+_wn = _WrongNumber(
+    CF + 'FilesComparison.wrong_number', props=['C04'],
+    params=OrderedDict([('original_actual', T.list(T.str)), ('original_expected', T.list(T.str)),
+                        ('actual_ignored', None), ('expected_ignored', None), ('actual_removals', None),
+                        ('expected_removals', None), ('actual_map', None), ('expected_map', None),
+                        ('actual_path', T.union(T.none, T.str)), ('normalize', None),
+                        ('ignore_substrings', T.opt(T.list(T.str))), ('ignore_patterns', T.none)]),
+    self_view=files_view, on_entry=_wn_entry, spec_env=dict(ENV),
+    requires=[('some-line-on-one-side', 'len(original_actual) > 0 or len(original_expected) > 0')],
+    loops={1: LoopSpec([('actual-cursor-within-the-lines-walked', '0 <= iactual and iactual <= _i'),
+                        ('expected-cursor-within-the-lines-walked', '0 <= iexpected and iexpected <= _i'),
+                        ('count-non-negative', 'ndiffs >= 0')],
+                       havoc={'iactual': T.int, 'iexpected': T.int, 'ndiffs': T.int, 'removed': T.bool,
+                              'first_error_line': T.union(T.none, T.str), 'actual_line': 'unbound',
+                              'expected_line': 'unbound'})},
+    ensures=[('different-line-counts-are-a-failure', 'result[1] > 0')])
+REGISTRY[_wn.ident] = _wn
